@@ -116,7 +116,7 @@ let parse_proof a =
   let auth = List.map parse_term (Array.to_list (Array.sub arr (2 + 2 * k) (Array.length arr - 2 - 2 * k))) in
   t_mkproof h il auth
 
-let spec_limit = zi 16
+let spec_limit = zi 13
 
 (* returns (release, checked, spec) *)
 let run op a : string * string * string =
